@@ -69,6 +69,13 @@ CHECKS['C19'] = dict(
     design_ref='DESIGN.md section 3 C19',
     note='dict backend filter store; PUTSCRIPT of an invalid script or with an empty name may be refused or accepted; TLS handshake answered by the mock transport',
     technique='explicit-state model checking of the implementation against a dictionary model')
+CHECKS['C20'] = dict(
+    engine='E1 virtual loop + exhaustive event-order search (vf/checks/c20.py)',
+    category='model_checking',
+    text='(a) The real asyncio read-write lock: every program of 2-3 (thorough: 4) harness tasks x 1-2 acquisitions in {R,W} that contains a writer (70 programs quick), with one harness-owned yield inside every critical section. Task start and in-section resume are external events; the search enumerates every order in which they can be released (every such order is realizable by a real event loop, while the lock\'s own hand-offs keep their real FIFO order), with state-key deduplication, and additionally cancels any one started task at any point of any interleaving. Oracle from the enter/exit log: no writer section overlaps any other section; terminal states with an unfinished task are deadlocks; after a cancellation the remaining tasks still finish and a fresh reader and writer are granted, exclusively. (b) The real FileLock on the virtual loop with virtual time in a scratch directory: 2-4 writers/readers, bodies that raise, cancellation at any point, retry-sleep timers as explicit events, a stale (older than expiry) and a live foreign lock file; oracle: never two writers inside, and after all holders left (normally, by exception or by cancellation) the lock file is gone.',
+    design_ref='DESIGN.md section 3 C20',
+    note='the threading read-write lock and FileLock under real threads are not explored by this check (no thread scheduler engine was built); FileLock holders are assumed to hold for less than the expiry; FileLock reader/writer overlap is by design and not claimed by the property',
+    technique='exhaustive enumeration of event orders and cancellation points on the real lock objects under a virtual event loop')
 NA = {}
 
 def main():
